@@ -275,6 +275,13 @@ func crashSig(stderr string) (sig, detail string) {
 	msg := stderr[m[4]:m[5]]
 	rest := stderr[m[1]:]
 	frame, owner := "", ""
+	if strings.Contains(msg, "synctest") || strings.Contains(msg, "outside bubble") {
+		// a channel made inside one bubble was used in another: the library keeps channels from
+		// call to call. That is legal Go; it is the simulator that cannot follow (every run has a
+		// bubble of its own). A limit of the harness, never a violation; C11's history check
+		// (c11hist.go) runs outside the bubble for exactly this kind of state.
+		return "harness:synctest cannot follow channels kept between calls", msg
+	}
 	if strings.Contains(msg, "all goroutines are asleep") {
 		// the runtime found every goroutine blocked for good (e.g. on a mutex that is never
 		// released): it is bcl's doing if some goroutine is blocked with a bcl frame innermost
